@@ -41,8 +41,9 @@ Lemma WLs : forall i a, 0 <= i < n -> a = i - 1 -> W i = T i + Z.min (O a) (O i)
 Proof. intros i a Hi ->. apply idx_walls. exact Hi. Qed.
 
 Lemma WFs : forall i a b, 0 <= i -> i + 1 < n -> a = i - 1 -> b = i + 1 ->
-  T i < T b /\ Z.abs (O i - O a) + Z.abs (O b - O i) <= T b - T i.
-Proof. intros i a b H0 H1 -> ->. apply idx_wf; assumption. Qed.
+  T i < T b /\ Z.max 0 (O a - O i) + Z.max 0 (O i - O b) <= T b - T i /\
+  Z.max 0 (O i - O a) <= T b - T i /\ Z.max 0 (O b - O i) <= T b - T i.
+Proof. intros i a b H0 H1 -> ->. pose proof (idx_wf tr p Hwf i H0 H1) as H. unfold dec, inc in H. exact H. Qed.
 
 (* starts of the wall images of the segments are non-decreasing, and the end of segment i
    does not exceed the start of segment j >= i + 2 *)
